@@ -56,6 +56,7 @@ type Request struct {
 	downloadCallback         DownloadCallback
 	downloadCallbackInterval time.Duration
 	unReplayableBody         io.ReadCloser
+	unReplayableUpload       bool
 	retryOption              *retryOption
 	bodyReadCloser           io.ReadCloser
 	dumpOptions              *DumpOptions
@@ -235,12 +236,22 @@ func (r *Request) SetQueryString(query string) *Request {
 
 // SetFileReader set up a multipart form with a reader to upload file.
 func (r *Request) SetFileReader(paramName, filename string, reader io.Reader) *Request {
+	seeker, seekable := reader.(io.Seeker)
+	if _, closer := reader.(io.Closer); closer || !seekable {
+		// drained (and closed) by the first attempt and cannot be rewound for a retry
+		r.unReplayableUpload = true
+	}
 	r.SetFileUpload(FileUpload{
 		ParamName: paramName,
 		FileName:  filename,
 		GetFileContent: func() (io.ReadCloser, error) {
 			if rc, ok := reader.(io.ReadCloser); ok {
 				return rc, nil
+			}
+			if r.RetryAttempt > 0 && seekable { // rewind the reader when retry
+				if _, err := seeker.Seek(0, io.SeekStart); err != nil {
+					return nil, err
+				}
 			}
 			return io.NopCloser(reader), nil
 		},
@@ -631,7 +642,7 @@ func (r *Request) Do(ctx ...context.Context) *Response {
 	if r.error != nil {
 		return r.newErrorResponse(r.error)
 	}
-	if r.retryOption != nil && r.retryOption.MaxRetries != 0 && r.unReplayableBody != nil { // retryable request should not have unreplayable Body
+	if r.retryOption != nil && r.retryOption.MaxRetries != 0 && (r.unReplayableBody != nil || r.unReplayableUpload) { // retryable request should not have unreplayable Body
 		return r.newErrorResponse(errRetryableWithUnReplayableBody)
 	}
 	resp, _ := r.do()
